@@ -41,6 +41,9 @@ func (g *G) NumOperand(ctx *xdoc.Node) xast.Expr {
 	case 4:
 		return &xast.Neg{X: &xast.Num{Lit: g.pick(cmpNumLits, "nlit")}}
 	}
+	if g.chance(1, "parenlit") {
+		return &xast.Group{X: &xast.Num{Lit: g.pick(cmpNumLits, "nlit")}} // (1): a parenthesised literal
+	}
 	return &xast.Num{Lit: g.pick(cmpNumLits, "nlit")}
 }
 
@@ -48,6 +51,9 @@ func (g *G) NumOperand(ctx *xdoc.Node) xast.Expr {
 func (g *G) StrOperand(ctx *xdoc.Node) xast.Expr {
 	if g.chance(2, "strfn") {
 		return &xast.Call{Name: "string", Args: []xast.Expr{g.FlatPath(xref.NodeSet{ctx})}}
+	}
+	if g.chance(1, "parenstr") {
+		return &xast.Group{X: &xast.Str{S: g.pick(cmpStrLits, "slit")}}
 	}
 	return &xast.Str{S: g.pick(cmpStrLits, "slit")}
 }
@@ -109,6 +115,11 @@ func (g *G) anyOperand(ctx *xdoc.Node, allowCmp bool) xast.Expr {
 	case 1:
 		return g.StrOperand(ctx)
 	case 2:
+		if g.chance(3, "generalpath") {
+			// as an operand of and/or/boolean()/not() a node-set only matters as empty or not: any path will do,
+			// including those that move the evaluation cursor (following::, preceding::, nested predicates)
+			return g.RelPath(xref.NodeSet{ctx}, 2, 1)
+		}
 		return g.FlatPath(xref.NodeSet{ctx})
 	case 3:
 		switch g.intn(3, "b") {
@@ -224,6 +235,9 @@ func (g *G) Arith(ctx *xdoc.Node, depth int) xast.Expr {
 			return &xast.Call{Name: "string-length", Args: []xast.Expr{g.FlatPath(base)}}
 		}
 		if g.chance(4, "randlit") {
+			if g.chance(2, "parenrandlit") {
+				return &xast.Group{X: &xast.Num{Lit: g.NumLit()}}
+			}
 			return &xast.Num{Lit: g.NumLit()}
 		}
 		return &xast.Num{Lit: g.pick(arithLits, "alit")}
